@@ -126,6 +126,7 @@ type stopScenario struct {
 	delete                    bool
 	attempts                  int
 	scanDelay                 int // ms
+	backoff                   int // error-backoff in seconds (0: failed requests are retried at once)
 	files                     []stopFile
 	faults                    [][2]string
 	touch                     [][2]string
@@ -147,7 +148,7 @@ func (sc *stopScenario) hasNegFault() bool {
 
 func (sc *stopScenario) key() string {
 	var b strings.Builder
-	fmt.Fprintf(&b, "t%d p%d c%d %s ld%d del%v a%d sd%d|", sc.threads, sc.payload, sc.chunk, sc.order, sc.lastDelay, sc.delete, sc.attempts, sc.scanDelay)
+	fmt.Fprintf(&b, "t%d p%d c%d %s ld%d del%v a%d sd%d|", sc.threads, sc.payload, sc.chunk, sc.order, sc.lastDelay, sc.delete, sc.attempts, sc.scanDelay*10+sc.backoff)
 	for _, f := range sc.files {
 		fmt.Fprintf(&b, "%s:%d:%d,", f.name, f.size, f.age)
 	}
@@ -254,6 +255,7 @@ func (sc *stopScenario) run(kind, spec string) *stopRun {
 	conf.Delete = sc.delete
 	conf.PollAttempts = sc.attempts
 	conf.ScanDelay = time.Duration(sc.scanDelay) * time.Millisecond
+	conf.ErrorBackoff = float64(sc.backoff)
 	res := &stopRun{kind: kind, spec: spec, stopAt: -1, confirmed: map[string]bool{}, negative: map[string]bool{}}
 	r, err := newE2ERig(conf)
 	if err != nil {
@@ -280,8 +282,15 @@ func (sc *stopScenario) run(kind, spec string) *stopRun {
 	graceful := kind == "graceful"
 	wantIdx := -1
 	wantSub := ""
+	wantNth, subSeen := 1, 0
 	if strings.HasPrefix(spec, "@") {
+		// "@<substring>" or "@<substring>@@N": at the first / N-th event containing the substring
 		wantSub = unesc(spec[1:])
+		if k := strings.LastIndex(wantSub, "@@"); k > 0 {
+			if n, err := stopAtoi(wantSub[k+2:]); err == nil && n >= 1 {
+				wantSub, wantNth = wantSub[:k], n
+			}
+		}
 	} else if spec != "end" {
 		wantIdx, _ = stopAtoi(spec)
 	}
@@ -290,6 +299,7 @@ func (sc *stopScenario) run(kind, spec string) *stopRun {
 	stopped := false
 	var stopTime time.Time
 	touched := map[int]bool{}
+	seenTouch := map[int]int{}
 	deliver := func(ev string) {
 		// called with mu held
 		stopped = true
@@ -320,7 +330,18 @@ func (sc *stopScenario) run(kind, spec string) *stopRun {
 		mu.Lock()
 		defer mu.Unlock()
 		for i, t := range sc.touch {
-			if !touched[i] && strings.Contains(ev, t[0]) {
+			// "<substring>@@N": the N-th event containing the substring (default: the first)
+			want, nth := t[0], 1
+			if k := strings.LastIndex(want, "@@"); k > 0 {
+				if n, err := stopAtoi(want[k+2:]); err == nil && n >= 1 {
+					want, nth = want[:k], n
+				}
+			}
+			if !touched[i] && strings.Contains(ev, want) {
+				seenTouch[i]++
+				if seenTouch[i] < nth {
+					continue
+				}
 				touched[i] = true
 				for _, f := range sc.files {
 					if f.name == t[1] {
@@ -333,7 +354,10 @@ func (sc *stopScenario) run(kind, spec string) *stopRun {
 			return
 		}
 		count++
-		if (wantIdx >= 0 && count == wantIdx) || (wantSub != "" && strings.Contains(ev, wantSub)) {
+		if wantSub != "" && strings.Contains(ev, wantSub) {
+			subSeen++
+		}
+		if (wantIdx >= 0 && count == wantIdx) || (wantSub != "" && strings.Contains(ev, wantSub) && subSeen == wantNth) {
 			deliver(ev)
 		}
 	}
@@ -595,7 +619,7 @@ func (e *stopExec) Do(op []string) string {
 		}
 		ok := geti("threads", &sc.threads, 1, 8) && geti("payload", &sc.payload, 10, 1<<20) && geti("chunk", &sc.chunk, 0, 1<<20) &&
 			geti("lastdelay", &sc.lastDelay, 0, 1<<30) && geti("delete", &del, 0, 1) && geti("attempts", &sc.attempts, 1, 100) &&
-			geti("scandelay", &sc.scanDelay, 1, 100000)
+			geti("scandelay", &sc.scanDelay, 1, 100000) && geti("backoff", &sc.backoff, 0, 5)
 		if v, has := kv["order"]; has {
 			if v != "fifo" && v != "lifo" && v != "alpha" && v != "none" {
 				ok = false
@@ -770,6 +794,12 @@ func (e *stopExec) sweep(kind string, k int) string {
 func (e *stopExec) judge(res *stopRun) string {
 	sc := &e.sc
 	where := fmt.Sprintf("%s stop at event %s (#%d %q)", res.kind, res.spec, res.stopAt, res.stopEv)
+	if os.Getenv("VERIF_STOP_DEBUG") == "2" {
+		fmt.Fprintf(os.Stderr, "---- run %s returned=%v latency=%v\n", where, res.returned, res.latency)
+		for i, ev := range res.events {
+			fmt.Fprintf(os.Stderr, "     %3d %s\n", i, ev)
+		}
+	}
 	stopStats.Lock()
 	stopStats.runs++
 	if res.kind == "graceful" {
@@ -1053,6 +1083,14 @@ func (stopComp) Corpus() [][]string {
 			"file g.a 20 3600", "file g.b 20 3590", "file g.c 20 3580", "file h.d 20 3570", "file h.e 20 3560", "file k.f 20 3550",
 			"fault poll none", "fault poll none", "fault poll failed",
 			"stopat graceful 0", "stopat graceful @sent"},
+		// immediate stop while the pipeline is backed up and the scanner is blocked handing on its third batch (the
+		// first transmission keeps failing, one second of backoff; two files change at the second and third failure):
+		// the stop flags must be published before the broadcast that only an idle scanner reads
+		{"conf threads=1 payload=32 chunk=0 order=alpha lastdelay=0 delete=0 attempts=50 scandelay=100 backoff=1",
+			"file g.a 32 3600", "file g.b 32 3600", "file g.c 32 3600", "file g.d 32 3600", "file g.e 32 3600", "file g.f 32 3600",
+			"file g.g 32 3600", "file g.h 32 3600", "file g.i 32 3600", "file g.j 32 3600", "file g.k 32 3600", "file g.l 32 3600",
+			"fault tx err", "fault tx err", "fault tx err", "fault tx err", "fault tx err", "fault tx err",
+			"touch tx%20g.a@@2 g.k", "touch tx%20g.a@@3 g.l", "down 0", "stopat now @cache-add%20g.l@@2"},
 		// last-delay shorter than the age of the files withholds nothing
 		{"conf threads=2 payload=64 chunk=0 order=lifo lastdelay=5 delete=0 attempts=50 scandelay=200",
 			"file g.a 27 3600", "file g.b 150 3590", "file h.c 1 3580", "file g.empty 0 3500",
